@@ -38,9 +38,15 @@ RULE = ("index-map cases: dicts of 1-5 keys with lengths 0-4 / non-iterables, ne
         "output forms, column maps (incl. clashing ones), use_cache on/off, local / thread pool / ordered "
         "completion; shortcut cases: instance.iter/zip; session cases: 2-3 for-nodes made "
         "one after the other in one process over the same body name / looped fields / output form that differ in "
-        "column map, cache flag, body definition or spelling, each checked against its own configuration. Non-trivial = at least one run returns a table with "
+        "column map, cache flag, body definition or spelling, each checked against its own configuration; toggle "
+        "cases: node.use_cache re-assigned between runs (on/off/on) while earlier input assignments come back as "
+        "fresh equal lists; array cases (ORACLE ONLY, not evaluated by the Coq model whose cells are integers): a "
+        "broadcast input holding a float numpy array or a number, replaced between runs by arrays of other "
+        "lengths with equal elements / by the number. Non-trivial = at least one run returns a table with "
         ">=2 rows or the helper returns >=2 maps; distinct = distinct case JSON")
-TRUSTED = ["harness OrderedPool (subclass of concurrent.futures.ThreadPoolExecutor) completes the futures it is "
+TRUSTED = ["array-valued broadcast inputs (body `Weighted`) are checked by the plain-python oracle only: rows, "
+           "columns, children, and body calls (none or one per row) against the inputs of each run",
+           "harness OrderedPool (subclass of concurrent.futures.ThreadPoolExecutor) completes the futures it is "
            "given in the prescribed order from one scheduler thread",
            "pandas.DataFrame construction/`to_dict('records')` (tables are compared as column list + row dicts)"]
 ASSUMPTIONS = ["cell values are integers; body node functions are deterministic, return one value per output label "
@@ -124,8 +130,37 @@ def Pair(xs, ys, val=1):
     return xs + 10 * ys + 100 * val, xs * ys
 
 
-BODIES = [T0, T1, T2, T3, T4, T5, T6, T7, Pair]
-BODY_NAMES = ["T0", "T1", "T2", "T3", "T4", "T5", "Scale", "Scale", "Pair"]
+@as_function_node("weighted", "n")
+def Weighted(x, w=1.0):
+    """broadcast input `w` may be a number or a numpy array"""
+    import numpy as np
+    LOG.append([x, w])
+    return int(x * np.sum(w)), int(np.size(w))
+
+
+BODIES = [T0, T1, T2, T3, T4, T5, T6, T7, Pair, Weighted]
+BODY_NAMES = ["T0", "T1", "T2", "T3", "T4", "T5", "Scale", "Scale", "Pair", "Weighted"]
+ARRAY_BODY = 9      # its cases are checked by the oracle only (the Coq model's cells are integers)
+
+
+def _arr(v):
+    """case value -> what the node is given: {"arr": [..]} is a fresh float numpy array"""
+    if isinstance(v, dict):
+        import numpy as np
+        return np.array(v["arr"], dtype=float)
+    return v
+
+
+def _canon_arg(a):
+    """a logged call argument in canonical form: numbers as int, arrays as list of int"""
+    if hasattr(a, "tolist") and hasattr(a, "shape") and a.shape != ():
+        return [_canon_value(x) for x in a.tolist()]
+    return _canon_value(a)
+
+
+def _ref_weighted(x, w):
+    ws = w["arr"] if isinstance(w, dict) else [w]
+    return [x * sum(ws), len(ws)]
 # (input label, default | None), output labels, python reference of the node function
 SIG = [
     ([("a", None)], ["y"], lambda a: [2 * a + 1]),
@@ -138,6 +173,7 @@ SIG = [
     ([("xs", None), ("factor", 1)], ["y"], lambda xs, factor: [xs * 2 * factor]),
     ([("xs", None), ("factor", 1)], ["y"], lambda xs, factor: [xs * 3 * factor]),
     ([("xs", None), ("ys", None), ("val", 1)], ["u", "w"], lambda xs, ys, val: [xs + 10 * ys + 100 * val, xs * ys]),
+    ([("x", None), ("w", 1)], ["weighted", "n"], _ref_weighted),
 ]
 
 
@@ -244,6 +280,8 @@ def _canon_value(v):
         return int(v)
     if isinstance(v, int):
         return v
+    if isinstance(v, float) and v.is_integer():
+        return int(v)
     if hasattr(v, "item") and not isinstance(v, (list, tuple, str)):   # numpy scalar
         return _canon_value(v.item())
     raise TypeError(f"cell value outside the integer universe: {v!r}")
@@ -361,15 +399,21 @@ def _run_steps(case, node, ex):
         node.body_node_executor = ex
     for st in case["steps"]:
         LOG.clear()
+        if st.get("cache") is not None:
+            node.use_cache = st["cache"]          # the user switches caching off / on between two runs
         try:
-            out = node.run(**{k: v for k, v in st["set"]})
+            out = node.run(**{k: _arr(v) for k, v in st["set"]})
         except Exception as e:   # noqa: BLE001
-            obs.append(_exc_obs(e, node.failed, [list(c) for c in LOG]))
+            obs.append(_exc_obs(e, node.failed, _calls()))
             if node.failed:
                 break
             continue
-        obs.append(["ok", _canon_out(out, case["df"]), _canon_children(node), sorted(list(c) for c in LOG)])
+        obs.append(["ok", _canon_out(out, case["df"]), _canon_children(node), sorted(_calls())])
     return obs
+
+
+def _calls():
+    return [[_canon_arg(a) for a in c] for c in LOG]
 
 
 def _run_shortcut(case, ex):
@@ -416,13 +460,16 @@ def model_term(case):
         loops = cl(f"({cs(k)}, {cl(cz(x) for x in v)})" for k, v in case["loops"])
         cm = cl(f"({cs(a)}, {cs(b)})" for a, b in (case["colmap"] or []))
         return f"shortcut (toy {cn(case['body'])}) {cb(case['style'] == 'zip')} {held} {loops} {cm} {_order(case)}"
+    if case["kind"] == "node" and case["body"] == ARRAY_BODY:
+        return None       # array-valued broadcast inputs: outside the model's integer cells, oracle only
     if case["kind"] == "session":
         return "session " + cl(f"({c_request(sub)}, {c_steps(sub)})" for sub in case["nodes"])
     return f"scenario {c_cfg(case)} {c_steps(case)}"
 
 
 def c_steps(case):
-    return cl("(" + cl(f"({cs(k)}, {c_ival(v)})" for k, v in st["set"]) + ", " + _order(case) + ")"
+    return cl("(" + ("None" if st.get("cache") is None else f"Some {cb(st['cache'])}") + ", ("
+              + cl(f"({cs(k)}, {c_ival(v)})" for k, v in st["set"]) + ", " + _order(case) + "))"
               for st in case["steps"])
 
 
@@ -503,7 +550,7 @@ def _ref_table(case, inputs):
             res = fn(*args)
             row = [(k, inputs[k][idx[k]]) for k in looped] + [(colmap.get(o, o), v) for o, v in zip(outs, res)]
             rows.append(row)
-            calls.append(args)
+            calls.append([a["arr"] if isinstance(a, dict) else a for a in args])
     return rows, calls
 
 
@@ -597,8 +644,12 @@ def _oracle_steps(case, obs, shortcut=False):
         steps = [{"set": case["loops"]}]
     else:
         steps = case["steps"]
-    prev_inputs, prev_table = None, None
+    prev_table = None
+    use_cache = case["cache"]        # the node's flag right now (steps may re-assign it)
+    remembered = None                # inputs of the last successful run made with caching on, while its table stands
     for k, (st, o) in enumerate(zip(steps, runs)):
+        if st.get("cache") is not None:
+            use_cache = st["cache"]
         inputs.update({l: v for l, v in st["set"]})
         ref = _ref_table(case, inputs)
         if ref is None:
@@ -637,10 +688,18 @@ def _oracle_steps(case, obs, shortcut=False):
         if mat != exp_mat:
             return f"rows: run {k}: {what} {mat}, expected {exp_mat}"
         table = o[1]
-        rebuilt = not (case["cache"] and prev_inputs == inputs)
-        if rebuilt and o[3] != sorted(calls):
+        # a run may be answered without running the body only when caching is on and the inputs are those of
+        # the last successful run that was made with caching on (whose table still stands)
+        rebuilt = not (use_cache and remembered == inputs)
+        if case["body"] == ARRAY_BODY:
+            # arrays: how equality of array inputs is decided is not the property's business -- the table was just
+            # checked against the CURRENT inputs, so answering without running the body was harmless, and running
+            # it for an equal but fresh array is fine too; anything in between is not
+            if o[3] not in ([], sorted(calls)):
+                return f"calls: run {k}: body calls {o[3]}, expected none or one per row {sorted(calls)}"
+        elif rebuilt and o[3] != sorted(calls):
             return f"calls: run {k}: body calls {o[3]}, expected one per row {sorted(calls)}"
-        if not rebuilt and o[3] != []:
+        elif not rebuilt and o[3] != []:
             return f"calls: run {k}: body ran on a cache hit {o[3]}"
         if not shortcut:
             idxs = []
@@ -655,7 +714,9 @@ def _oracle_steps(case, obs, shortcut=False):
                 nb = sum(1 for c in o[2] if c[0] == "body")
                 return (f"children: run {k}: {len(o[2])} children ({nb} body nodes), expected {len(exp_ch)} "
                         f"({len(rows)} body nodes): {o[2]}")
-        prev_inputs, prev_table = dict(inputs), table
+        prev_table = table
+        if rebuilt:                          # the body was rebuilt: what was remembered before is gone
+            remembered = dict(inputs) if use_cache else None
     return None
 
 
@@ -837,7 +898,74 @@ def _gen_steps(rng, b, it, zp, nsteps):
         steps.append({"set": sets})
     if nsteps >= 2 and rng.random() < 0.2:
         steps[-1] = {"set": []}                      # run again with nothing changed (cache hit)
+    if nsteps >= 2 and rng.random() < 0.2:           # the user switches caching off / on between runs
+        for st in steps[1:]:
+            if rng.random() < 0.6:
+                st["cache"] = rng.random() < 0.5
     return steps
+
+
+def _gen_toggle_node(rng):
+    """histories around `use_cache` being re-assigned: run (remembered) -> caching off, other lengths -> caching on
+    again, an earlier input assignment again (fresh, equal lists) -> ..."""
+    b = rng.choice([1, 2, 3, 5, 6, 8])
+    ins, outs, _ = SIG[b]
+    while True:
+        it, zp, colmap = _gen_layout(rng, b)
+        case = {"kind": "node", "body": b, "iter": it, "zip": zp, "df": rng.random() < 0.5, "colmap": colmap,
+                "cache": rng.random() < 0.75, "entry": rng.choice(["for_node", "cls"]), "exec": None}
+        if _layout_problem(case) is None:
+            break
+    full = []      # complete assignments to come back to
+    for _ in range(2):
+        while True:
+            st = _gen_steps(rng, b, it, zp, 1)[0]
+            have = {l for l, _ in st["set"]}
+            st["set"] += [[l, rng.randint(-2, 9)] for l, d in ins if l not in have and l not in it + zp]
+            if all(len(v) > 0 for l, v in st["set"] if isinstance(v, list)) and \
+                    {l for l, _ in st["set"]} == {l for l, _ in ins}:
+                break
+        full.append(st["set"])
+    flag = case["cache"]
+    steps = [{"set": full[0]}]
+    for _ in range(rng.choice([2, 3, 3, 4])):
+        st = {"set": [list(x) for x in rng.choice(full)]}
+        if rng.random() < 0.7:
+            flag = not flag
+            st["cache"] = flag
+        steps.append(st)
+    case["steps"] = steps
+    if _max_rows(case) > 24:
+        return _gen_toggle_node(rng)
+    return case
+
+
+def _gen_array_node(rng):
+    """a broadcast input that is a numpy array (or a number), replaced between runs by arrays of other lengths
+    with the same elements / by the number -- with the looped input kept or changed"""
+    role = rng.choice(["iter", "zip"])
+    case = {"kind": "node", "body": ARRAY_BODY, "iter": ["x"] if role == "iter" else [],
+            "zip": ["x"] if role == "zip" else [], "df": rng.random() < 0.5,
+            "colmap": [["n", "size"]] if rng.random() < 0.3 else [], "cache": rng.random() < 0.85,
+            "entry": rng.choice(["for_node", "cls"]), "exec": None}
+    if rng.random() < 0.4:
+        case["bare"] = [role]
+    const = rng.choice([1, 1, 1, 2, 0])
+
+    def wval():
+        r = rng.random()
+        if r < 0.25:
+            return const
+        n = rng.choice([0, 1, 1, 2, 2, 3, 3, 4])
+        return {"arr": [const if rng.random() < 0.9 else const + 1 for _ in range(n)]}
+    steps = [{"set": [["x", _gen_list(rng, _gen_len(rng, zero_ok=False))], ["w", wval()]]}]
+    for _ in range(rng.choice([1, 2, 2, 3])):
+        sets = [["w", wval()]] if rng.random() < 0.9 else []
+        if rng.random() < 0.35:
+            sets.append(["x", _gen_list(rng, _gen_len(rng, zero_ok=False))])
+        steps.append({"set": sets})
+    case["steps"] = steps
+    return case
 
 
 def _gen_exec(rng, case, p_exec):
@@ -955,6 +1083,10 @@ def generate(ctx):
         add(_gen_shortcut(rng, 0.2 if ctx.quick else 0.4))
     for _ in range(ctx.n(60, 700)):
         add(_gen_session(rng))
+    for _ in range(ctx.n(40, 500)):
+        add(_gen_toggle_node(rng))
+    for _ in range(ctx.n(40, 500)):
+        add(_gen_array_node(rng))
     return cases
 
 
@@ -967,7 +1099,8 @@ def search(ctx, results, mism):
     out = []
     for _ in range(900):
         k = rng.choice(sorted(kinds))
-        out.append(_gen_maps(rng) if k == "maps" else _gen_node(rng, 0.3) if k == "node"
+        out.append(_gen_maps(rng) if k == "maps"
+                   else rng.choice([_gen_toggle_node, _gen_array_node, lambda r: _gen_node(r, 0.3)])(rng) if k == "node"
                    else _gen_session(rng) if k == "session" else _gen_shortcut(rng, 0.3))
     return out
 
@@ -1007,9 +1140,15 @@ def shrink_candidates(case):
                 yield {**case, "steps": merged}
         yield {**case, "steps": case["steps"][:-1]}
     for si, st in enumerate(case["steps"]):
+        if st.get("cache") is not None:
+            st2 = {k: v for k, v in st.items() if k != "cache"}
+            yield {**case, "steps": case["steps"][:si] + [st2] + case["steps"][si + 1:]}
         for vi, (l, v) in enumerate(st["set"]):
+            if isinstance(v, dict) and len(v["arr"]) > 0:
+                st2 = {**st, "set": st["set"][:vi] + [[l, {"arr": v["arr"][:-1]}]] + st["set"][vi + 1:]}
+                yield {**case, "steps": case["steps"][:si] + [st2] + case["steps"][si + 1:]}
             if isinstance(v, list) and len(v) > 0:
-                st2 = {"set": st["set"][:vi] + [[l, v[:-1]]] + st["set"][vi + 1:]}
+                st2 = {**st, "set": st["set"][:vi] + [[l, v[:-1]]] + st["set"][vi + 1:]}
                 yield {**case, "steps": case["steps"][:si] + [st2] + case["steps"][si + 1:]}
     if case["colmap"]:
         for i in range(len(case["colmap"])):
